@@ -36,6 +36,9 @@ def gen_budget(r: random.Random, costs):
     gap = min(pos) if pos else F(1)
     sub = sum(r.sample(costs, r.randint(0, len(costs))), F(0)) if costs else F(0)
     choices = [F(0), sub, sub + gap / 2, max(F(0), sub - gap / 2), total, total + 1, total / 2, F(r.randint(0, 12)), total + gap / 3]
+    # a hair below / above a subset sum: "equal up to rounding" is not "within the budget" (C15-r7B: feasibility through round_cmp)
+    eps = F(1, r.choice([10 ** 7, 3 * 10 ** 8, 10 ** 12, 7 * 10 ** 15]))
+    choices += [max(F(0), sub - eps), sub + eps, max(F(0), total - eps)]
     if costs:
         choices += [min(costs), max(costs), min(costs) / 2]
     return F(r.choice(choices))
@@ -128,6 +131,17 @@ def evaluate(case: Case, box: solverbox.SolverBox):
         exh.append(e1)
         exhA.append(e2)
         xf = oracle.feasible(cost, S, B)
+        if len(subs) <= 64 or S == subs[case.seed % len(subs)]:
+            # the same set as every argument type a caller may use, one-shot iterables included (is_feasible sums the costs once)
+            for label, mk in core.collection_variants(ps):
+                fv = guarded("is_feasible", lambda: inst.is_feasible(mk()))
+                if fv is not None and bool(fv) != xf:
+                    vs.append(viol(f"is_feasible({S} given as {label}) = {fv}, total cost {oracle.total(cost, S)} vs budget {B}", case,
+                                   {"call": "is_feasible", "argtype": label}, impl=fv, expected=xf))
+            for label, mk in core.collection_variants(ps, one_shot=False):
+                ev = guarded("is_exhaustive", lambda: inst.is_exhaustive(mk()))
+                if ev is not None and bool(ev) != oracle.exhaustive(cost, S, names, B):
+                    vs.append(viol(f"is_exhaustive({S} given as {label}) = {ev}", case, {"call": "is_exhaustive", "argtype": label}, impl=ev))
         if f1 is not None and (bool(f1) != xf or bool(f2) != xf):
             vs.append(viol(f"is_feasible({S}) = {f1}/{f2}, total cost {oracle.total(cost, S)} vs budget {B}", case, {"call": "is_feasible"}, impl=f1, expected=xf))
         xe = oracle.exhaustive(cost, S, names, B)
@@ -167,6 +181,12 @@ def evaluate(case: Case, box: solverbox.SolverBox):
             xc = oracle.max_card(cost, L, q)
             if c != xc or isinstance(c, bool) or not isinstance(c, int):
                 vs.append(viol(f"max_budget_allocation_cardinality({L}, {q}) = {c!r}, brute force {xc}", case, {"call": "max_budget_allocation_cardinality"}, impl=repr(c), expected=xc))
+            # the documented argument is "an iterable of projects": every kind of iterable, one-shot ones included (C15-r7A)
+            for label, mk in core.collection_variants([projs[n] for n in L]):
+                cv = guarded("max_budget_allocation_cardinality", lambda: max_budget_allocation_cardinality(mk(), core.to_cost(q)))
+                if cv is not None and cv != xc:
+                    vs.append(viol(f"max_budget_allocation_cardinality({L} given as {label}, {q}) = {cv!r}, brute force {xc}", case,
+                                   {"call": "max_budget_allocation_cardinality", "argtype": label}, impl=repr(cv), expected=xc))
         xm = oracle.max_cost(cost, L, q)
         st, res = box.call("max_cost", {"projects": [[n, q2s(cost[n])] for n in L], "budget": q2s(q)})
         if st == "fault":
